@@ -29,6 +29,12 @@ func New() *Iterator {
 
 // Finish is called be the storage to signal the end of the query results.
 func (it *Iterator) Finish(err error) {
+	// Set the error before closing the stream, so that a consumer that sees
+	// the end of the stream also sees the error.
+	it.errLock.Lock()
+	it.err = err
+	it.errLock.Unlock()
+
 	close(it.Next)
 	if it.doneClosed.SetToIf(false, true) {
 		close(it.Done)
